@@ -576,7 +576,7 @@ Proof.
   intros (ba1 & bl1 & er0 & q_liq & q_fin & ins_fee & i1 & la1 & b1 & bl2 & b1' & i2 & b2 & ba2 & b2' & i3 & la3 & b3 & ba3 & b3' &
           i4 & b4 & bl3 & b4' & ins_n & f & ba4 & bl5 & F) Hoka Hokl Her0 Wee Pea Pel.
   cbv zeta in F.
-  destruct F as (Hamt & Hne & Hacca & Haccl & Hr0 & Hif & Hif0 & Hqf0 & Hloc1 & Hb1 & Hdec1 & Hi2 & Hb2 & Hdec2 & Hloc3 & Hb3 & Hinc3 &
+  destruct F as (Hamt & Hne & Hdist & Hacca & Haccl & Hr0 & Hif & Hif0 & Hqf0 & Hloc1 & Hb1 & Hdec1 & Hi2 & Hb2 & Hdec2 & Hloc3 & Hb3 & Hinc3 &
                  Hi4 & Hb4 & Hinc4 & Hinsn & Hvle & Hf & Hrange & Hca & Hcl & -> & -> & -> & ->).
   destruct (Her0 _ Hr0) as (Wer0 & Pra & Prl).
   unfold acc_slack, sv_slack. rewrite Hacca, Haccl.
